@@ -3653,6 +3653,8 @@ func (e *ExpressionEmitter) emitExpression(handle ir.ExpressionHandle) (uint32, 
 		id, err = e.emitAs(kind)
 	case ir.ExprArrayLength:
 		id, err = e.emitArrayLength(kind)
+	case ir.ExprRelational:
+		id, err = e.emitRelational(kind)
 	case ir.ExprSubgroupBallotResult:
 		return e.emitSubgroupResultRef(handle)
 	case ir.ExprSubgroupOperationResult:
@@ -5291,6 +5293,53 @@ func (e *ExpressionEmitter) dereferencePointerType(res ir.TypeResolution) (uint3
 }
 
 // emitUnary emits a unary operation.
+// emitRelational emits all/any (OpAll/OpAny) and isNan/isInf (OpIsNan/OpIsInf).
+func (e *ExpressionEmitter) emitRelational(rel ir.ExprRelational) (uint32, error) {
+	argID, err := e.emitExpression(rel.Argument)
+	if err != nil {
+		return 0, err
+	}
+	argType, err := ir.ResolveExpressionType(e.backend.module, e.function, rel.Argument)
+	if err != nil {
+		return 0, fmt.Errorf("relational argument type: %w", err)
+	}
+	var inner ir.TypeInner
+	if argType.Handle != nil {
+		inner = e.backend.module.Types[*argType.Handle].Inner
+	} else {
+		inner = argType.Value
+	}
+	boolType, err := e.backend.emitScalarType(ir.ScalarType{Kind: ir.ScalarBool, Width: 1})
+	if err != nil {
+		return 0, err
+	}
+
+	switch rel.Fun {
+	case ir.RelationalAll, ir.RelationalAny:
+		if _, isVec := inner.(ir.VectorType); !isVec {
+			// all(b) == any(b) == b for a scalar bool
+			return argID, nil
+		}
+		opcode := OpAll
+		if rel.Fun == ir.RelationalAny {
+			opcode = OpAny
+		}
+		return e.backend.builder.AddUnaryOp(opcode, boolType, argID), nil
+	case ir.RelationalIsNan, ir.RelationalIsInf:
+		resultType := boolType
+		if vec, isVec := inner.(ir.VectorType); isVec {
+			resultType = e.backend.emitVectorType(boolType, uint32(vec.Size))
+		}
+		opcode := OpIsNan
+		if rel.Fun == ir.RelationalIsInf {
+			opcode = OpIsInf
+		}
+		return e.backend.builder.AddUnaryOp(opcode, resultType, argID), nil
+	default:
+		return 0, fmt.Errorf("unsupported relational function: %v", rel.Fun)
+	}
+}
+
 func (e *ExpressionEmitter) emitUnary(unary ir.ExprUnary) (uint32, error) {
 	operandID, err := e.emitExpression(unary.Expr)
 	if err != nil {
